@@ -103,9 +103,136 @@ func TestC10Tree(t *testing.T) {
 			t.Fatalf("C10 violated: verdict soft=%v wrapped=%v, the filter read as logic gives %v\ntype: %s\nvalues: %s\nfilter: %s", s, w, want, ts, gen.ShowVals(vals), tree)
 		}
 
-		r.Case(fmt.Sprintf("%s %s filter=%s", ts, gen.ShowVals(vals), tree), tree.Depth() >= 3 && tree.Mixed(),
-			fmt.Sprintf("depth:%d", tree.Depth()), fmt.Sprintf("verdict:%v", want))
+		// One filter object used again after its values were edited (a list
+		// element replaced in place, a value assigned): the verdict is that
+		// of the filter as it is now.
+		before := tree.String()
+		f := tree.Build()
+		edits := 0
+
+		var s1, w1, s2, w2 bool
+
+		if p := oracle.Try(func() { s1, w1 = f.IsAllowed(soft), f.IsAllowed(wrapped) }); p != nil {
+			t.Fatalf("C10 violated: IsAllowed %s\nfilter: %s", p, before)
+		}
+
+		walkLeaves(tree, f, func(n *gen.FNode, lf *jsonapi.Filter) {
+			if rapid.IntRange(0, 2).Draw(t, "edit") != 0 {
+				return
+			}
+
+			nv, ok := newLeafVal(t, &ts, vals, n)
+			if !ok {
+				return
+			}
+
+			n.Val = nv
+			edits++
+
+			if old, isList := lf.Val.([]string); isList && len(old) == len(nv.([]string)) && rapid.Bool().Draw(t, "inplace") {
+				copy(old, nv.([]string))
+				return
+			}
+
+			lf.Val = gen.Clone(nv)
+		})
+
+		want2 := oracle.EvalFilter(tree, &ts, vals)
+
+		if p := oracle.Try(func() { s2, w2 = f.IsAllowed(soft), f.IsAllowed(wrapped) }); p != nil {
+			t.Fatalf("C10 violated: IsAllowed %s\nfilter: %s (edited from %s)", p, tree, before)
+		}
+
+		if s1 != want || w1 != want || s2 != want2 || w2 != want2 {
+			t.Fatalf("C10 violated: one filter object: first soft=%v wrapped=%v (want %v); after %d of its values were edited soft=%v wrapped=%v (want %v)\ntype: %s\nvalues: %s\nfilter: %s\nedited:  %s",
+				s1, w1, want, edits, s2, w2, want2, ts, gen.ShowVals(vals), before, tree)
+		}
+
+		r.Case(fmt.Sprintf("%s %s filter=%s", ts, gen.ShowVals(vals), before), tree.Depth() >= 3 && tree.Mixed(),
+			fmt.Sprintf("depth:%d", tree.Depth()), fmt.Sprintf("verdict:%v", want), fmt.Sprintf("edited-and-reused:%v", edits > 0))
 	}))
+}
+
+// walkLeaves visits the leaves of a filter description and of the filter built
+// from it, in step.
+func walkLeaves(n *gen.FNode, f *jsonapi.Filter, visit func(*gen.FNode, *jsonapi.Filter)) {
+	if n.Op == "and" || n.Op == "or" {
+		kids, _ := f.Val.([]*jsonapi.Filter)
+		for i, k := range n.Kids {
+			if i < len(kids) {
+				walkLeaves(k, kids[i], visit)
+			}
+		}
+
+		return
+	}
+
+	visit(n, f)
+}
+
+// newLeafVal draws another value for a leaf, of the same Go type (lists keep
+// their length), related to the resource's value often enough to flip verdicts.
+func newLeafVal(t *rapid.T, ts *gen.TypeSpec, vals map[string]any, n *gen.FNode) (any, bool) {
+	list := func(old []string, hit func() (string, bool)) (any, bool) {
+		if len(old) == 0 {
+			return nil, false
+		}
+
+		nl := make([]string, len(old))
+		for i := range nl {
+			if h, ok := hit(); ok && rapid.Bool().Draw(t, "newhit") {
+				nl[i] = h
+			} else {
+				nl[i] = gen.IDString(t, "newid", true)
+			}
+		}
+
+		return nl, true
+	}
+
+	if a, ok := ts.Attr(n.Field); ok {
+		if old, isList := n.Val.([]string); isList {
+			return list(old, func() (string, bool) { s, ok := vals[a.Name].(string); return s, ok })
+		}
+
+		v, _ := gen.PairValue(t, a, vals[a.Name], "newval")
+
+		return v, true
+	}
+
+	rel, ok := ts.Rel(n.Field)
+	if !ok {
+		return nil, false
+	}
+
+	switch old := n.Val.(type) {
+	case []string:
+		return list(old, func() (string, bool) {
+			if rel.ToOne {
+				s, ok := vals[rel.FromName].(string)
+				return s, ok
+			}
+
+			cur, _ := vals[rel.FromName].([]string)
+			if len(cur) == 0 {
+				return "", false
+			}
+
+			return cur[rapid.IntRange(0, len(cur)-1).Draw(t, "member")], true
+		})
+	case string:
+		if cur, ok := vals[rel.FromName].(string); ok && rapid.Bool().Draw(t, "newcur") {
+			return cur, true
+		}
+
+		if cur, ok := vals[rel.FromName].([]string); ok && len(cur) > 0 && rapid.Bool().Draw(t, "newmember") {
+			return cur[rapid.IntRange(0, len(cur)-1).Draw(t, "member")], true
+		}
+
+		return gen.IDString(t, "newid", true), true
+	}
+
+	return nil, false
 }
 
 // TestC10Leaf: one attribute, one pair of values of a chosen class, every operator.
@@ -142,6 +269,37 @@ func TestC10Leaf(t *testing.T) {
 		// The laws themselves, on the implementation's verdicts.
 		rnil, _ := gen.Deref(rv)
 		cnil, _ := gen.Deref(cv)
+
+		// The filter's value may be the very value the resource holds (the
+		// same pointer for nullable kinds, the same slice for byte strings).
+		for _, op := range gen.AttrOps {
+			want := oracle.EvalAttrOp(op, rv, rv)
+
+			for _, c := range []struct {
+				impl string
+				res  jsonapi.Resource
+			}{{"soft", soft}, {"wrapped", wrapped}} {
+				var got bool
+
+				// (a wrapped struct reads a nil nullable value as an untyped
+				// nil, which is not a well-typed filter value: nothing to share)
+				if c.res.Get("a") == nil {
+					continue
+				}
+
+				if p := oracle.Try(func() {
+					f := &jsonapi.Filter{Field: "a", Op: op, Val: c.res.Get("a")}
+					got = f.IsAllowed(c.res)
+				}); p != nil {
+					t.Fatalf("C10 violated: IsAllowed (%s resource, filter value taken from the resource itself) %s", c.impl, p)
+				}
+
+				if got != want {
+					t.Fatalf("C10 violated: kind %s, %s resource holding %s, filter %q with the value read from the resource itself: %v, want %v",
+						gen.KindName(attr.Type, attr.Nullable), c.impl, gen.Show(rv), op, got, want)
+				}
+			}
+		}
 
 		if holds["="] == holds["!="] {
 			t.Fatalf("C10 violated: = and != are not complementary for %s vs %s", gen.Show(rv), gen.Show(cv))
